@@ -20,7 +20,7 @@ use crate::scen::CompressSpec;
 use crate::simio::SimFile;
 
 pub fn run(ctx: &mut Ctx) {
-    let big = ctx.tier == Tier::Thorough && gen::chance(1, 50);
+    let big = gen::chance(1, if ctx.tier == crate::harness::Tier::Thorough { 50 } else { 600 });
     let cfg = gen::gen_config(false, big);
     let comp = gen::gen_compression();
     let hash_len = gen::gen_hash_length();
@@ -97,6 +97,14 @@ pub fn run(ctx: &mut Ctx) {
         }
     }
     // 2. cloned: through the whole scenario family
+    {
+        // different chunks colliding under a short hash cannot be described by any archive
+        let mut seen = std::collections::HashSet::new();
+        if enc.dict.descriptors.iter().any(|d| !seen.insert(d.checksum.clone())) {
+            simkit::count("hash-collision-exempt");
+            return;
+        }
+    }
     let made = Made { spec, source: Arc::new(data), archive: enc.archive, writer: "ref-encoder", desc: desc.clone() };
     let Some(f) = clonefam::generate_from(ctx, Which::C06, made) else { return };
     let ob = clonefam::execute(&f);
@@ -110,7 +118,7 @@ pub fn run(ctx: &mut Ctx) {
     // 3. over HTTP the requests are still the maximal adjacent runs for this layout
     if f.http {
         let ex = clonefam::expect(&f);
-        if !ex.collision {
+        if !ex.collision && !clonefam::truncated_twins(&f.ra) {
             let mut want = header_requests(&f.ra);
             want.extend(expected_requests(&f.ra, &ex.fetch));
             let got: Vec<String> = ob.http_log.iter().map(|l| l.range.clone().unwrap_or_default()).collect();
